@@ -494,6 +494,11 @@ func replay(t *testing.T, P Property, path string) {
 				}()
 			}
 		}
+		// the plan's own check ran before its history check (it may prime caches itself)
+		func() {
+			defer func() { _ = recover() }()
+			P.Check(t, p, nil)
+		}()
 		v := historyCheck(t, p, nil, "")
 		if v == nil {
 			fmt.Printf("REPLAY-OK property=%s file=%s\n", P.ID(), path)
